@@ -387,6 +387,12 @@ func c49Sections() []c49Section {
 			"global:\n  external_labels:\n    cost: \"5$\"\n    brace: \"${}x\"\n",
 			"global:\n  scrape_interval: 1ms\n  scrape_timeout: 1ms\n  evaluation_interval: 1y\n  body_size_limit: 0\n  sample_limit: 0\n",
 			"global: {}\n",
+			// one of interval / timeout given, the other inferred from a default that may not fit it
+			"global:\n  scrape_interval: 5s\n",
+			"global:\n  scrape_interval: 10s\n",
+			"global:\n  scrape_interval: 2m\n",
+			"global:\n  scrape_timeout: 3s\n",
+			"global:\n  scrape_timeout: 1m\n",
 			"global:\n  evaluation_interval: 0s\n  rule_query_offset: 0s\n",
 		}},
 		{"runtime", []string{"", "runtime:\n  gogc: 42\n", "runtime:\n  gogc: 75\n", "runtime:\n  gogc: -1\n", "runtime:\n  gogc: 0\n", "runtime: {}\n"}},
